@@ -185,12 +185,20 @@ class Eval:
                 if x != x or x in (math.inf, -math.inf):
                     return self.v(a[1])
                 if name == 'round':
-                    r = math.floor(abs(x) + 0.5) if abs(x) < 2 ** 52 else abs(x)
+                    ax = abs(x)
+                    if ax < 2 ** 52:
+                        r = float(math.floor(ax))
+                        if ax - r >= 0.5:          # exact: both are multiples of the same power of two
+                            r += 1.0
+                    else:
+                        r = ax
                     r = math.copysign(r, x)
                 elif name in ('rint', 'nearbyint', 'roundeven'):
                     r = float(round(x)) if abs(x) < 2 ** 52 else x
                 else:
                     r = float(_LIBM1[name](x)) if abs(x) < 2 ** 62 else x
+                if r == 0:
+                    r = math.copysign(0.0, x)      # a zero result keeps the sign of the argument (floor(-0.0), ceil(-0.3), trunc(-0.3), rint(-0.3) are -0.0)
                 return f2b(w, float(r))
             if name in ('nextafter', 'nextafterf') and len(a) == 3 and a[1].w == w and a[2].w == w:
                 # IEEE next-after on the bit patterns: towards y by one representable value
